@@ -556,4 +556,5 @@ int ProgMain(int argc, char** argv) {
   return 0;
 }
 
+static Register regProg("prog", ProgMain);
 }  // namespace vf
